@@ -7,6 +7,35 @@ open DirectVerif DirectVerif.Driver
 def dtypeOfCode : Int → Fft.DType
   | 0 => .float32 | 1 => .float64 | 2 => .float16 | 3 => .complex64 | 4 => .complex128 | _ => .other
 
+/-- `ok <shape> | L num den | E…` for a symbolic tensor: entry = `sqrt(num/den) · exp(-2πi E / L)`, `E = -1` for 0 -/
+def renderSym (cshape dims : List Nat) (y : Fft.SymT) : String :=
+  let r := cshape.length
+  let lens := dims.map fun d => cshape.getD d 1
+  let L := lens.foldl Nat.lcm 1
+  if y.t.data.any (· == Fft.symBad) then "err NotSparse" else
+  let es : List Int := y.t.data.map fun v =>
+    match v with
+    | none => (-1 : Int)
+    | some es =>
+      ((List.range r).foldl (fun (acc : Int) a => acc + es.getD a 0 * ((L / cshape.getD a 1 : Nat) : Int)) 0) % (L : Int)
+  okG [y.t.shape.map Int.ofNat, [(L : Int), (y.num : Int), (y.den : Int)], es]
+
+def impulse (cshape pos : List Nat) : Fft.SymT :=
+  let off := Tensor.offset cshape pos
+  ⟨⟨cshape, (List.range (prod cshape)).map fun i => if i = off then some (List.replicate cshape.length 0) else none⟩, 1, 1⟩
+
+def normOfCode : Int → Fft.Norm
+  | 0 => .ortho | 1 => .backward | _ => .forward
+
+/-- the external transform alone — what `torch.fft.fftn / ifftn (x, dim=dims, norm=…)` is assumed to be: the per-axis DFT
+(`Fft.symBackend.transform`, i.e. `applyAxes` of the lifted 1-D DFT) of the unit impulse at `pos`; no shifts, no glue.
+`dims` must be distinct in-range axes of non-zero length (the harness only sends such lines). -/
+def opFftn (shape pos dims : List Int) (inv nm : Int) : String :=
+  let cshape := nats shape
+  let ds := nats dims
+  if pos.length ≠ cshape.length ∨ dims.any (· < 0) ∨ ds.any (· ≥ cshape.length) ∨ Fft.hasDup dims ∨ prod cshape = 0 then "err BadOp" else
+  renderSym cshape ds ((Fft.symBackend ds).transform (inv != 0) (normOfCode nm) (impulse cshape (nats pos)))
+
 /-- `fft2` / `ifft2` of the unit impulse at complex position `pos` of a tensor of shape `shape`
 (the shape as passed, i.e. with the trailing 2 when `complex_input`).
 Answer: `ok <complex shape> | L num den | E…` — entry = `sqrt(num/den) · exp(-2πi E / L)`, `E = -1` for 0. -/
@@ -27,15 +56,7 @@ def opFft (shape pos dims flags : List Int) (dt : Int) : String :=
       let x : Fft.SymT := ⟨⟨cshape, data⟩, 1, 1⟩
       let B := Fft.symBackend (nats dims)
       let y := if inv != 0 then Fft.ifft2 B cfg x else Fft.fft2 B cfg x
-      let lens := (nats dims).map fun d => cshape.getD d 1
-      let L := lens.foldl Nat.lcm 1
-      if y.t.data.any (· == Fft.symBad) then "err NotSparse" else
-      let es : List Int := y.t.data.map fun v =>
-        match v with
-        | none => (-1 : Int)
-        | some es =>
-          ((List.range r).foldl (fun (acc : Int) a => acc + es.getD a 0 * ((L / cshape.getD a 1 : Nat) : Int)) 0) % (L : Int)
-      okG [y.t.shape.map Int.ofNat, [(L : Int), (y.num : Int), (y.den : Int)], es]
+      renderSym cshape (nats dims) y
   | _ => "err BadOp"
 
 /-- Python axis indexing: negative axes count from the end; out of range is an `IndexError` -/
@@ -69,6 +90,7 @@ def step (op : String) (gs : List (List Int)) : String :=
       | none => "err IndexError"
     | none => "err BadOp"
   | "fft", [shape, pos, dims, flags, [dt]] => opFft shape pos dims flags dt
+  | "fftn", [shape, pos, dims, [inv, nm]] => opFftn shape pos dims inv nm
   | _, _ => "err BadOp"
 
 end DirectVerif.Driver.C01
